@@ -550,6 +550,23 @@ def closure_defs(crate, o, table):
                     # the defining atom is a necessary conjunct: the closure is false whenever the atom is
                     ok = len(idx) == 1 and all(not v for k, v in table_.items() if not k[idx[0]]) and any(table_.values())
                 o.check(ok, who, name + "-definition", msg, prog.fns[cp]["span"])
+            if not found and recv_no == 2:
+                # the same scan with the roles of the operands exchanged: all() over the items of the OTHER digraph, testing
+                # them against self, decides the converse relation
+                swapped = False
+                for cp in prog.children.get(p, ()):
+                    key, src, cb = consumer_of(crate, p, cp)
+                    if key == IT + consumer and src and src[0] == "call" and src[1] == source and len(src[3]) == 1 \
+                            and src[3][0][0] == "at" and src[3][0][1] == "A2":
+                        atoms, table_ = truth_table(crate, crate.an(cp), {HAS_ARC})
+                        if atoms and any(a[0] == "call" and a[1] == HAS_ARC and recv_arg(crate, cp, a[3][0]) == 1 for a in atoms):
+                            swapped = True
+                            o.instances += 1
+                            o.check(False, prog.pretty[p], name + "-direction", "%s scans the %s of the other digraph and tests them against "
+                                    "self: that decides the converse relation (A(d) within A(self))" % (name, source.split("::")[-1]),
+                                    prog.fns[cp]["span"])
+                if swapped:
+                    continue
             if not found:
                 o.undecided.append((prog.pretty[p], "no closure consumed by %s() over %s(self)" % (consumer, source.split("::")[-1])))
 
